@@ -103,6 +103,8 @@ class MetaWorld:
         assert vm.call(own, self.pair, "setLpTokenIdentifier", [LPT]).ok
         vm.roles(self.pair, LPT, ["ESDTRoleLocalMint", "ESDTRoleLocalBurn"])
         assert vm.call(own, self.pair, "resume").ok
+        # token codes of the pair's first / second token, as the pair itself reports them
+        self.pool_codes = tuple(CODE.get(vm.query(self.pair, f).out[0], TK_X) for f in ("getFirstTokenId", "getSecondTokenId"))
         for a in A.values():
             vm.setbal(a, WEGLD, 0, BIG)
             vm.setbal(a, RIDE, 0, BIG)
@@ -423,8 +425,7 @@ class MetaWorld:
         if ok:
             dres = meas["dres"]
             e["lpout"] = -dres[2]
-            c1, c2 = (TK_STK, TK_OTH) if self.cfg["stk_first"] else (TK_OTH, TK_STK)
-            e["rm"] = (c1, -dres[0], c2, -dres[1])
+            e["rm"] = (self.pool_codes[0], -dres[0], self.pool_codes[1], -dres[1])
             ups = sorted(((v, n) for (c, n), v in duser.items() if c == TK_SF and v > 0), reverse=True)
             e["ub"] = (ups[0][1], ups[0][0]) if ups else (0, 0)
             e["rl"], e["rs"] = (meas["ret"][1][2], meas["ret"][2][2]) if len(meas["ret"]) == 4 else (0, 0)
@@ -582,7 +583,7 @@ def gen_op(rng, w):
 
 def gen_malformed(rng, w, users, lpf, dy):
     u = rng.choice(users)
-    kind = rng.randrange(9)
+    kind = rng.choice([0, 1, 2, 3, 4, 4, 4, 5, 6, 7, 8])
     some_dy = dy[u][0] if dy[u] else None
     some_lpf = lpf[u][0] if lpf[u] else None
     if kind == 0:
